@@ -1,6 +1,7 @@
 package main
 
 import (
+	"sync"
 	"fmt"
 	"go/ast"
 	"go/token"
@@ -519,12 +520,41 @@ func structureObligations(prog *Program, tag string) []*Obligation {
 // variable is assigned, incremented, written through (element, field), locked or has its address taken by non-test
 // code. Two Watchers then share nothing the contracts do not name, which is what the independence claim rests on.
 func noPackageStateObligation(prog *Program) *Obligation {
-	info := prog.Main.TypesInfo
 	label := "the package keeps no mutable state outside its Watcher objects (no package-level variable is written by non-test code)"
 	o := &Obligation{Func: "structure", Kind: "structure", Label: label, Tags: []string{"C14"}, Name: "structure[" + label + "]", Trivial: true, Result: "unsat", Solver: "syntactic scan"}
+	ws := scanPkgVarWrites(prog)
+	var names []string
+	for obj := range ws {
+		names = append(names, obj.Name())
+	}
+	sort.Strings(names)
+	for obj, w := range ws {
+		if obj.Name() == names[0] {
+			o.Result, o.Trivial = "sat", false
+			o.Pos = w.pos
+			o.Model = fmt.Sprintf("package-level variable %s is %s at %s", obj.Name(), w.how, w.pos)
+		}
+	}
+	return o
+}
+
+type pkgVarWrite struct {
+	how string
+	pos token.Position
+}
+
+var pkgWriteCache sync.Map // *Program -> map[types.Object]pkgVarWrite
+
+// scanPkgVarWrites: every package-level variable of the main package that non-test code assigns, increments, writes
+// through (element, field), locks (pointer-receiver method) or takes the address of — with the first place it does.
+func scanPkgVarWrites(prog *Program) map[types.Object]pkgVarWrite {
+	if v, ok := pkgWriteCache.Load(prog); ok {
+		return v.(map[types.Object]pkgVarWrite)
+	}
+	info := prog.Main.TypesInfo
 	scope := prog.Main.Types.Scope()
+	out := map[types.Object]pkgVarWrite{}
 	isPkgVar := func(e ast.Expr) (types.Object, bool) {
-		// the root identifier of e (through index, selector, star, paren) is a package-level variable of this package
 		for {
 			switch v := e.(type) {
 			case *ast.ParenExpr:
@@ -555,9 +585,9 @@ func noPackageStateObligation(prog *Program) *Obligation {
 		}
 	}
 	bad := func(n ast.Node, obj types.Object, how string) {
-		o.Result, o.Trivial = "sat", false
-		o.Pos = prog.Fset.Position(n.Pos())
-		o.Model = fmt.Sprintf("package-level variable %s is %s at %s", obj.Name(), how, o.Pos)
+		if _, seen := out[obj]; !seen {
+			out[obj] = pkgVarWrite{how, prog.Fset.Position(n.Pos())}
+		}
 	}
 	for _, f := range prog.Main.Syntax {
 		if strings.HasSuffix(prog.Fset.Position(f.Pos()).Filename, "_test.go") {
@@ -603,6 +633,13 @@ func noPackageStateObligation(prog *Program) *Obligation {
 							}
 						}
 					}
+				case *ast.SliceExpr:
+					// a slice of a package-level array aliases it
+					if _, isArr := info.TypeOf(st.X).Underlying().(*types.Array); isArr {
+						if obj, ok := isPkgVar(st.X); ok {
+							bad(n, obj, "aliased (sliced)")
+						}
+					}
 				case *ast.RangeStmt:
 					if st.Tok == token.ASSIGN {
 						for _, l := range []ast.Expr{st.Key, st.Value} {
@@ -618,7 +655,8 @@ func noPackageStateObligation(prog *Program) *Obligation {
 			})
 		}
 	}
-	return o
+	pkgWriteCache.Store(prog, out)
+	return out
 }
 
 // implObligation: `impl S.f *T` — every non-test write of field f of S stores a value that is statically a *T:
